@@ -218,7 +218,8 @@ func genList(r *Rand, n int, thorough bool, emit func(string)) {
 				case 0:
 					name = b + e // frameless
 				case 1:
-					name = r.Pick([]string{"123", "-0", "foo.-0.exr", "a\nb.1.exr", ".hidden", ".h.1.exr", "readme", "x.#.exr", "1-5", "2x", "a.1.b.2.c"})
+					name = r.Pick([]string{"123", "-0", "foo.-0.exr", "a\nb.1.exr", ".hidden", ".h.1.exr", "readme", "x.#.exr", "1-5", "2x", "a.1.b.2.c",
+						"--5.exr", "--5", "-", "--", "0012", "shot1-001.exr", "a-0007"})
 				default:
 					v := r.Range(0, 1200)
 					if crowd {
@@ -254,6 +255,21 @@ func genList(r *Rand, n int, thorough bool, emit func(string)) {
 				if !seen[c] {
 					seen[c] = true
 					ps = append(ps, p)
+				}
+			}
+		}
+		if r.Chance(1, 10) {
+			// two (basename, extension) splits whose concatenation is the same text
+			d := r.Pick(listDirs)
+			b0, mid, e0 := r.Pick([]string{"img", "cache", "plate-"}), r.Pick([]string{".left", ".sim", ".tar"}), r.Pick([]string{".exr", ".bgeo", ".gz"})
+			for j := r.Range(1, 3); j > 0; j-- {
+				n1 := fmt.Sprintf("%s%02d%s%s", b0, r.Range(1, 30), mid, e0)
+				n2 := fmt.Sprintf("%s%s%02d%s", b0, mid, r.Range(31, 60), e0)
+				for _, nm := range []string{n1, n2} {
+					if c := filepath.Clean(d + nm); !seen[c] {
+						seen[c] = true
+						ps = append(ps, d+nm)
+					}
 				}
 			}
 		}
